@@ -34,11 +34,13 @@ const SCAN: usize = 512 * 1024;
 fn ecu_id(n: u8) -> [u8; 4] {
     [b'E', b'C', b'0' + (n / 10) % 10, b'0' + n % 10]
 }
-/// application / context ids: 0 = four zero bytes (only in filters), 1,2 = four characters, 3 = two characters
+/// application / context ids: 0 = four zero bytes (only in filters), 1,2 = four characters, 3 = two characters,
+/// 4 = four characters sharing only the tail with 2 (so that `.*02`, `^AP`, `[AB]P0.` ... tell them apart)
 fn apid_id(n: u8) -> [u8; 4] {
     match n {
         0 => [0; 4],
         3 => [b'A', b'3', 0, 0],
+        4 => *b"BP02",
         _ => [b'A', b'P', b'0', b'0' + n],
     }
 }
@@ -46,9 +48,11 @@ fn ctid_id(n: u8) -> [u8; 4] {
     match n {
         0 => [0; 4],
         3 => [b'C', b'3', 0, 0],
+        4 => *b"DT02",
         _ => [b'C', b'T', b'0', b'0' + n],
     }
 }
+const NIDS: u64 = 4; // application / context ids 1..=NIDS occur in generated messages
 fn id_str(b: &[u8; 4]) -> String {
     b.iter().take_while(|c| **c != 0).map(|c| *c as char).collect()
 }
@@ -67,10 +71,11 @@ struct M {
     fill: u32,
     creq: bool,   // control request (needs ext)
     has_ts: bool, // standard header carries a timestamp
+    lvl: u8,      // log level (MTIN) of a log message, 1..=6
 }
 impl M {
     fn json(&self) -> Value {
-        json!([self.ecu, self.rt, self.ts, self.mcnt, self.ext, self.apid, self.ctid, self.boot, self.fill, self.creq, self.has_ts])
+        json!([self.ecu, self.rt, self.ts, self.mcnt, self.ext, self.apid, self.ctid, self.boot, self.fill, self.creq, self.has_ts, self.lvl])
     }
     fn from_json(v: &Value) -> M {
         M {
@@ -85,13 +90,22 @@ impl M {
             fill: v[8].as_u64().unwrap() as u32,
             creq: v[9].as_bool().unwrap_or(false),
             has_ts: v[10].as_bool().unwrap_or(true),
+            lvl: v[11].as_u64().unwrap_or(4) as u8,
+        }
+    }
+    /// MSTP/MTIN byte of the extended header: control request, or a non-verbose log message of level `lvl`
+    fn vmm(&self) -> u8 {
+        if self.creq {
+            (3 << 1) | (1 << 4)
+        } else {
+            self.lvl << 4
         }
     }
     fn build(&self, uid: u32) -> DltMessage {
         let mut payload = uid.to_le_bytes().to_vec();
         payload.extend(std::iter::repeat(0x55u8).take(self.fill as usize));
         let ext = if self.ext {
-            Some(DltExtendedHeader { verb_mstp_mtin: if self.creq { (3 << 1) | (1 << 4) } else { 4 << 4 }, noar: 0, apid: DltChar4::from_buf(&apid_id(self.apid)), ctid: DltChar4::from_buf(&ctid_id(self.ctid)) })
+            Some(DltExtendedHeader { verb_mstp_mtin: self.vmm(), noar: 0, apid: DltChar4::from_buf(&apid_id(self.apid)), ctid: DltChar4::from_buf(&ctid_id(self.ctid)) })
         } else {
             None
         };
@@ -174,40 +188,306 @@ impl Scn {
     }
 }
 
+// ------------------------------------------------------------------ id criteria: literal or regular expression
+/// One ECU / APID / CTID criterion as the user writes it.  `flag`: the DLF element `enableregexp_Appid` /
+/// `enableregexp_Context` (None: element absent); `--eac` parts and dlt-convert format files have no such flag.
+#[derive(Clone, Debug, PartialEq)]
+struct Crit {
+    text: String,
+    flag: Option<bool>,
+}
+/// where a filter comes from: decides how its id criteria are read
+#[derive(Clone, Copy, Debug, PartialEq)]
+enum Front {
+    Dlf,
+    Conv,
+    Eac,
+}
+#[derive(Clone, Copy, Debug, PartialEq)]
+enum IdKind {
+    Ecu,
+    Apid,
+    Ctid,
+}
+/// the characters that make an id expression a regular expression (help text of --eac: "Entries can contain regex chars")
+fn has_regex_chars(s: &str) -> bool {
+    s.bytes().any(|c| b"^$*+?()[]{}|.-\\=!<>,".contains(&c))
+}
+/// a literal id is its first four bytes, padded with NUL
+fn lit4(s: &str) -> [u8; 4] {
+    let mut out = [0u8; 4];
+    for (i, b) in s.bytes().take(4).enumerate() {
+        out[i] = b;
+    }
+    out
+}
+impl Crit {
+    fn lit(s: &str) -> Crit {
+        Crit { text: s.to_string(), flag: None }
+    }
+    fn json(&self) -> Value {
+        json!([self.text, self.flag])
+    }
+    fn from_json(v: &Value) -> Option<Crit> {
+        if v.is_null() {
+            return None;
+        }
+        Some(Crit { text: v[0].as_str().unwrap().to_string(), flag: v[1].as_bool() })
+    }
+    /// is the criterion a regular expression?  dlt-convert format: never; DLF: never for the ECU (dlt-viewer has no
+    /// regex for it), else what the flag says, without flag by the characters; --eac: by the characters
+    fn is_regex(&self, front: Front, kind: IdKind) -> bool {
+        match front {
+            Front::Conv => false,
+            Front::Dlf if kind == IdKind::Ecu => false,
+            Front::Dlf => self.flag.unwrap_or_else(|| has_regex_chars(&self.text)),
+            Front::Eac => has_regex_chars(&self.text),
+        }
+    }
+    /// ground truth (no regex crate involved): does the criterion hold for this id (the four bytes of the message)?
+    fn holds(&self, front: Front, kind: IdKind, id: &[u8; 4]) -> bool {
+        if self.is_regex(front, kind) {
+            re_search(&self.text, id)
+        } else {
+            &lit4(&self.text) == id
+        }
+    }
+}
+
+// ---- a small regular-expression matcher of its own (the oracle must not ask the engine the code uses)
+#[derive(Clone, Debug)]
+enum Re {
+    Byte(u8),
+    Any,
+    Class(Vec<(u8, u8)>, bool),
+    Bol,
+    Eol,
+    Cat(Vec<Re>),
+    Alt(Vec<Re>),
+    Rep(Box<Re>, usize, Option<usize>),
+}
+struct ReParser<'a> {
+    s: &'a [u8],
+    i: usize,
+}
+impl<'a> ReParser<'a> {
+    fn peek(&self) -> Option<u8> {
+        self.s.get(self.i).cloned()
+    }
+    fn alt(&mut self) -> Option<Re> {
+        let mut v = vec![self.cat()?];
+        while self.peek() == Some(b'|') {
+            self.i += 1;
+            v.push(self.cat()?);
+        }
+        Some(if v.len() == 1 { v.pop().unwrap() } else { Re::Alt(v) })
+    }
+    fn cat(&mut self) -> Option<Re> {
+        let mut v = vec![];
+        while let Some(c) = self.peek() {
+            if c == b'|' || c == b')' {
+                break;
+            }
+            let a = self.atom()?;
+            let a = match self.peek() {
+                Some(b'*') => {
+                    self.i += 1;
+                    Re::Rep(Box::new(a), 0, None)
+                }
+                Some(b'+') => {
+                    self.i += 1;
+                    Re::Rep(Box::new(a), 1, None)
+                }
+                Some(b'?') => {
+                    self.i += 1;
+                    Re::Rep(Box::new(a), 0, Some(1))
+                }
+                _ => a,
+            };
+            v.push(a);
+        }
+        Some(Re::Cat(v))
+    }
+    fn atom(&mut self) -> Option<Re> {
+        let c = self.peek()?;
+        self.i += 1;
+        match c {
+            b'(' => {
+                let r = self.alt()?;
+                if self.peek() != Some(b')') {
+                    return None;
+                }
+                self.i += 1;
+                Some(r)
+            }
+            b'[' => {
+                let neg = self.peek() == Some(b'^');
+                if neg {
+                    self.i += 1;
+                }
+                let mut rs = vec![];
+                loop {
+                    let a = self.peek()?;
+                    self.i += 1;
+                    if a == b']' {
+                        break;
+                    }
+                    if a == b'\\' || a == b'[' {
+                        return None;
+                    }
+                    if self.peek() == Some(b'-') && self.s.get(self.i + 1).map_or(false, |x| *x != b']') {
+                        let b = self.s[self.i + 1];
+                        self.i += 2;
+                        rs.push((a, b));
+                    } else {
+                        rs.push((a, a));
+                    }
+                }
+                if rs.is_empty() {
+                    return None;
+                }
+                Some(Re::Class(rs, neg))
+            }
+            b'.' => Some(Re::Any),
+            b'^' => Some(Re::Bol),
+            b'$' => Some(Re::Eol),
+            b'*' | b'+' | b'?' | b'{' | b'}' | b')' | b'|' | b'\\' => None,
+            c if c < 0x80 => Some(Re::Byte(c)),
+            _ => None,
+        }
+    }
+}
+fn re_parse(s: &str) -> Option<Re> {
+    let mut p = ReParser { s: s.as_bytes(), i: 0 };
+    let r = p.alt()?;
+    if p.i == s.len() {
+        Some(r)
+    } else {
+        None
+    }
+}
+/// can `re` match `s` from position `i` so that the continuation accepts the end position?
+fn re_m(re: &Re, s: &[u8], i: usize, k: &dyn Fn(usize) -> bool) -> bool {
+    match re {
+        Re::Byte(b) => i < s.len() && s[i] == *b && k(i + 1),
+        Re::Any => i < s.len() && s[i] != b'\n' && k(i + 1),
+        Re::Class(rs, neg) => i < s.len() && (rs.iter().any(|(a, b)| *a <= s[i] && s[i] <= *b) != *neg) && k(i + 1),
+        Re::Bol => i == 0 && k(i),
+        Re::Eol => i == s.len() && k(i),
+        Re::Cat(v) => re_cat(v, s, i, k),
+        Re::Alt(v) => v.iter().any(|r| re_m(r, s, i, k)),
+        Re::Rep(r, min, max) => re_rep(r, *min, *max, s, i, k),
+    }
+}
+fn re_cat(v: &[Re], s: &[u8], i: usize, k: &dyn Fn(usize) -> bool) -> bool {
+    match v.split_first() {
+        None => k(i),
+        Some((a, rest)) => re_m(a, s, i, &|j| re_cat(rest, s, j, k)),
+    }
+}
+fn re_rep(r: &Re, min: usize, max: Option<usize>, s: &[u8], i: usize, k: &dyn Fn(usize) -> bool) -> bool {
+    if min == 0 && k(i) {
+        return true;
+    }
+    if max == Some(0) {
+        return false;
+    }
+    re_m(r, s, i, &|j| j > i && re_rep(r, min.saturating_sub(1), max.map(|m| m - 1), s, j, k))
+}
+/// unanchored search over the bytes of an id (what "the expression matches the id" means)
+fn re_search(text: &str, hay: &[u8]) -> bool {
+    let re = re_parse(text).unwrap_or_else(|| panic!("generator produced an expression outside the oracle's grammar: {:?}", text));
+    (0..=hay.len()).any(|i| re_m(&re, hay, i, &|_| true))
+}
+
 // ------------------------------------------------------------------ options
 #[derive(Clone, Debug, PartialEq)]
 struct Flt {
     kind: u8, // 0 positive, 1 negative, 2 marker
     enabled: bool,
-    ecu: Vec<u8>, // empty = no criterion, else alternatives
-    apid: Option<u8>,
-    ctid: Option<u8>,
+    ecu: Option<Crit>,
+    apid: Option<Crit>,
+    ctid: Option<Crit>,
+    ctrl: bool,       // DLF enablecontrolmsgs: control messages only
+    lmin: Option<u8>, // DLF log level bounds
+    lmax: Option<u8>,
 }
 impl Flt {
+    fn new(kind: u8) -> Flt {
+        Flt { kind, enabled: true, ecu: None, apid: None, ctid: None, ctrl: false, lmin: None, lmax: None }
+    }
+    fn ids(kind: u8, ecu: Option<&str>, apid: Option<&str>, ctid: Option<&str>) -> Flt {
+        let mut f = Flt::new(kind);
+        f.ecu = ecu.map(Crit::lit);
+        f.apid = apid.map(Crit::lit);
+        f.ctid = ctid.map(Crit::lit);
+        f
+    }
     fn json(&self) -> Value {
-        json!([self.kind, self.enabled, self.ecu, self.apid, self.ctid])
+        json!({"kind": self.kind, "enabled": self.enabled, "ecu": self.ecu.as_ref().map(|c| c.json()), "apid": self.apid.as_ref().map(|c| c.json()),
+               "ctid": self.ctid.as_ref().map(|c| c.json()), "ctrl": self.ctrl, "lmin": self.lmin, "lmax": self.lmax})
     }
     fn from_json(v: &Value) -> Flt {
+        if v.is_array() {
+            // replay files written before id criteria could be expressions: [kind, enabled, [ecu numbers], apid number, ctid number]
+            let ecus: Vec<u8> = serde_json::from_value(v[2].clone()).unwrap();
+            let mut f = Flt::new(v[0].as_u64().unwrap() as u8);
+            f.enabled = v[1].as_bool().unwrap();
+            if !ecus.is_empty() {
+                f.ecu = Some(Crit::lit(&ecus.iter().map(|e| id_str(&ecu_id(*e))).collect::<Vec<_>>().join("|")));
+            }
+            f.apid = v[3].as_u64().map(|x| Crit::lit(&id_str(&apid_id(x as u8))));
+            f.ctid = v[4].as_u64().map(|x| Crit::lit(&id_str(&ctid_id(x as u8))));
+            return f;
+        }
         Flt {
-            kind: v[0].as_u64().unwrap() as u8,
-            enabled: v[1].as_bool().unwrap(),
-            ecu: serde_json::from_value(v[2].clone()).unwrap(),
-            apid: v[3].as_u64().map(|x| x as u8),
-            ctid: v[4].as_u64().map(|x| x as u8),
+            kind: v["kind"].as_u64().unwrap() as u8,
+            enabled: v["enabled"].as_bool().unwrap(),
+            ecu: Crit::from_json(&v["ecu"]),
+            apid: Crit::from_json(&v["apid"]),
+            ctid: Crit::from_json(&v["ctid"]),
+            ctrl: v["ctrl"].as_bool().unwrap_or(false),
+            lmin: v["lmin"].as_u64().map(|x| x as u8),
+            lmax: v["lmax"].as_u64().map(|x| x as u8),
         }
     }
-    /// ground truth: the literal criteria
-    fn verdict(&self, m: &M) -> bool {
-        if !self.ecu.is_empty() && !self.ecu.contains(&m.ecu) {
-            return false;
-        }
-        if let Some(a) = self.apid {
-            if !(m.ext && a != 0 && m.apid == a) {
+    /// has a criterion that can only hold for a message with an extended header
+    fn needs_ext(&self) -> bool {
+        self.apid.is_some() || self.ctid.is_some() || self.ctrl || self.lmin.is_some() || self.lmax.is_some()
+    }
+    /// ground truth, stated on the criteria (independent of how `Filter::matches` is written): every given criterion
+    /// holds; a message WITHOUT extended header has no APID, no CTID, no message type and no log level, so none of
+    /// those criteria holds for it
+    fn verdict(&self, front: Front, m: &M) -> bool {
+        if let Some(c) = &self.ecu {
+            if !c.holds(front, IdKind::Ecu, &ecu_id(m.ecu)) {
                 return false;
             }
         }
-        if let Some(c) = self.ctid {
-            if !(m.ext && c != 0 && m.ctid == c) {
+        if self.needs_ext() && !m.ext {
+            return false;
+        }
+        if let Some(c) = &self.apid {
+            if !c.holds(front, IdKind::Apid, &apid_id(m.apid)) {
+                return false;
+            }
+        }
+        if let Some(c) = &self.ctid {
+            if !c.holds(front, IdKind::Ctid, &ctid_id(m.ctid)) {
+                return false;
+            }
+        }
+        let (mstp, mtin) = ((m.vmm() >> 1) & 7, m.vmm() >> 4);
+        if self.ctrl && mstp != 3 {
+            return false;
+        }
+        if let Some(l) = self.lmin {
+            if !(mstp == 0 && mtin >= l) {
+                return false;
+            }
+        }
+        if let Some(l) = self.lmax {
+            if !(mstp == 0 && mtin <= l) {
                 return false;
             }
         }
@@ -334,10 +614,11 @@ impl Opts {
             pre: Pre::from_json(&v["pre"]),
         }
     }
-    /// the filter vector convert builds: file filters, then the --eac filters
-    fn filters(&self) -> Vec<Flt> {
-        let mut v = if self.ffmt != 0 { self.ffilters.clone() } else { vec![] };
-        v.extend(self.eac.iter().cloned());
+    /// the filter vector convert builds: file filters, then the --eac filters (each with the front end it is read by)
+    fn filters(&self) -> Vec<(Front, Flt)> {
+        let front = if self.ffmt == 2 { Front::Conv } else { Front::Dlf };
+        let mut v: Vec<(Front, Flt)> = if self.ffmt != 0 { self.ffilters.iter().map(|f| (front, f.clone())).collect() } else { vec![] };
+        v.extend(self.eac.iter().map(|f| (Front::Eac, f.clone())));
         v
     }
     fn key(&self) -> String {
@@ -345,29 +626,52 @@ impl Opts {
     }
 }
 
+/// the elements of one DLF <filter>, in document order
+fn dlf_attrs(f: &Flt) -> Vec<(&'static str, String)> {
+    let mut kv: Vec<(&'static str, String)> = vec![("type", f.kind.to_string()), ("enablefilter", (f.enabled as u8).to_string())];
+    if let Some(e) = &f.ecu {
+        kv.push(("enableecuid", "1".into()));
+        kv.push(("ecuid", e.text.clone()));
+    } else {
+        kv.push(("enableecuid", "0".into()));
+        kv.push(("ecuid", "EC01".into()));
+    }
+    if let Some(a) = &f.apid {
+        kv.push(("enableapplicationid", "1".into()));
+        kv.push(("applicationid", a.text.clone()));
+        if let Some(fl) = a.flag {
+            kv.push(("enableregexp_Appid", (fl as u8).to_string()));
+        }
+    }
+    if let Some(c) = &f.ctid {
+        // (the flag may come in front of the value: the elements are collected into a map)
+        if let Some(fl) = c.flag {
+            kv.push(("enableregexp_Context", (fl as u8).to_string()));
+        }
+        kv.push(("enablecontextid", "1".into()));
+        kv.push(("contextid", c.text.clone()));
+    }
+    if f.ctrl {
+        kv.push(("enablecontrolmsgs", "1".into()));
+    }
+    if let Some(l) = f.lmin {
+        kv.push(("enableLogLevelMin", "1".into()));
+        kv.push(("logLevelMin", l.to_string()));
+    }
+    if let Some(l) = f.lmax {
+        kv.push(("enableLogLevelMax", "1".into()));
+        kv.push(("logLevelMax", l.to_string()));
+    }
+    kv
+}
 fn dlf_text(fs: &[Flt], pretty: bool) -> String {
     let nl = if pretty { "\n  " } else { "" };
     let mut s = String::from("<?xml version=\"1.0\" encoding=\"UTF-8\"?>\n<dltfilter>");
     for f in fs {
         s.push_str(nl);
         s.push_str("<filter>");
-        let mut kv: Vec<(String, String)> = vec![("type".into(), f.kind.to_string()), ("enablefilter".into(), (f.enabled as u8).to_string())];
-        if let Some(e) = f.ecu.first() {
-            kv.push(("enableecuid".into(), "1".into()));
-            kv.push(("ecuid".into(), id_str(&ecu_id(*e))));
-        } else {
-            kv.push(("enableecuid".into(), "0".into()));
-            kv.push(("ecuid".into(), "EC01".into()));
-        }
-        if let Some(a) = f.apid {
-            kv.push(("enableapplicationid".into(), "1".into()));
-            kv.push(("applicationid".into(), id_str(&apid_id(a))));
-        }
-        if let Some(c) = f.ctid {
-            kv.push(("enablecontextid".into(), "1".into()));
-            kv.push(("contextid".into(), id_str(&ctid_id(c))));
-        }
-        for (k, v) in kv {
+        for (k, v) in dlf_attrs(f) {
+            assert!(!v.contains(|c| c == '<' || c == '>' || c == '&'), "value needs XML escaping: {}", v);
             s.push_str(nl);
             s.push_str(&format!("<{}>{}</{}>", k, v, k));
         }
@@ -381,41 +685,32 @@ fn conv_text(fs: &[Flt]) -> Vec<u8> {
     // "<apid> <ctid> " : 4 bytes each, filled with '-', one separator byte after each
     let mut out = vec![];
     for (i, f) in fs.iter().enumerate() {
-        for (id, sep) in [(apid_id(f.apid.unwrap_or(0)), b' '), (ctid_id(f.ctid.unwrap_or(0)), if i % 2 == 0 { b' ' } else { b'\n' })] {
-            for c in id {
-                out.push(if c == 0 { b'-' } else { c });
+        for (c, sep) in [(&f.apid, b' '), (&f.ctid, if i % 2 == 0 { b' ' } else { b'\n' })] {
+            let t = c.as_ref().map_or("", |c| c.text.as_str());
+            assert!(t.len() <= 4 && !t.contains('-'), "not a dlt-convert format id: {}", t);
+            for k in 0..4 {
+                out.push(*t.as_bytes().get(k).unwrap_or(&b'-'));
             }
             out.push(sep);
         }
     }
     out
 }
-fn eac_text(fs: &[Flt], style: u8) -> String {
-    let mut parts = vec![];
-    for f in fs {
-        let ecu = match f.ecu.len() {
-            0 => String::new(),
-            1 => id_str(&ecu_id(f.ecu[0])),
-            _ => {
-                if style == 1 && f.ecu.iter().all(|e| *e < 10) {
-                    format!("EC0[{}]", f.ecu.iter().map(|e| e.to_string()).collect::<String>())
-                } else {
-                    f.ecu.iter().map(|e| id_str(&ecu_id(*e))).collect::<Vec<_>>().join("|")
-                }
-            }
-        };
-        let apid = f.apid.map(|a| id_str(&apid_id(a))).unwrap_or_default();
-        let ctid = f.ctid.map(|c| id_str(&ctid_id(c))).unwrap_or_default();
-        let mut s = format!("{}:{}:{}", ecu, apid, ctid);
-        if style != 2 {
-            // trailing empty parts may be left out
-            while s.ends_with(':') && s.len() > 1 {
-                s.pop();
-            }
+/// one ECU:APID:CTID expression
+fn eac_one(f: &Flt, style: u8) -> String {
+    let part = |c: &Option<Crit>| c.as_ref().map_or(String::new(), |c| c.text.clone());
+    let mut s = format!("{}:{}:{}", part(&f.ecu), part(&f.apid), part(&f.ctid));
+    assert!(!s.contains(','), "',' separates --eac expressions: {}", s);
+    if style != 2 {
+        // trailing empty parts may be left out
+        while s.ends_with(':') && s.len() > 1 {
+            s.pop();
         }
-        parts.push(s);
     }
-    parts.join(",")
+    s
+}
+fn eac_text(fs: &[Flt], style: u8) -> String {
+    fs.iter().map(|f| eac_one(f, style)).collect::<Vec<_>>().join(",")
 }
 
 // ------------------------------------------------------------------ running the binary
@@ -797,10 +1092,10 @@ fn truth(scn: &Scn, baseline: &[(u32, u32)]) -> Truth {
     Truth { lc_of: if clean { Some(lc_of) } else { None }, rows }
 }
 
-fn keep_truth(fs: &[Flt], m: &M) -> bool {
-    let pos: Vec<&Flt> = fs.iter().filter(|f| f.enabled && f.kind == 0).collect();
-    let neg: Vec<&Flt> = fs.iter().filter(|f| f.enabled && f.kind == 1).collect();
-    (pos.is_empty() || pos.iter().any(|f| f.verdict(m))) && !neg.iter().any(|f| f.verdict(m))
+fn keep_truth(fs: &[(Front, Flt)], m: &M) -> bool {
+    let pos: Vec<&(Front, Flt)> = fs.iter().filter(|f| f.1.enabled && f.1.kind == 0).collect();
+    let neg: Vec<&(Front, Flt)> = fs.iter().filter(|f| f.1.enabled && f.1.kind == 1).collect();
+    (pos.is_empty() || pos.iter().any(|f| f.1.verdict(f.0, m))) && !neg.iter().any(|f| f.1.verdict(f.0, m))
 }
 
 fn distinct_first_times(scn: &Scn, args: &[ArgSpec]) -> bool {
@@ -1157,12 +1452,13 @@ fn gen_msgs(rng: &mut Rng, necu: u64, max_per_boot: u64, grid: u64) -> Vec<M> {
                     ts: (ts_us / 100) as u32,
                     mcnt: 0,
                     ext,
-                    apid: if ext { rng.range(1, 3) as u8 } else { 0 },
-                    ctid: if ext { rng.range(1, 3) as u8 } else { 0 },
+                    apid: if ext { rng.range(1, NIDS) as u8 } else { 0 },
+                    ctid: if ext { rng.range(1, NIDS) as u8 } else { 0 },
                     boot: b as u32,
                     fill: 0,
                     creq: false,
                     has_ts: true,
+                    lvl: rng.range(1, 6) as u8,
                 });
             }
             // next boot: at least 1 ms after the last message was generated
@@ -1484,7 +1780,7 @@ fn shuffle<T>(rng: &mut Rng, v: &mut Vec<T>) {
 /// four single-ECU files, first messages at distinct times, two later messages tie: the heap merge pops them in an
 /// order that depends on the order in which the streams were pushed (the order of the file arguments before the fix)
 fn corpus_tie() -> Scn {
-    let mk = |ecu: u8, rt: u64, ts: u32, mcnt: u8| M { ecu, rt, ts, mcnt, ext: false, apid: 0, ctid: 0, boot: 0, fill: 0, creq: false, has_ts: true };
+    let mk = |ecu: u8, rt: u64, ts: u32, mcnt: u8| M { ecu, rt, ts, mcnt, ext: false, apid: 0, ctid: 0, boot: 0, fill: 0, creq: false, has_ts: true, lvl: 4 };
     let msgs = vec![
         mk(1, RHO + 100, 0, 0),
         mk(1, RHO + 300, 2, 1), // the tie: both second messages are received at the same time
@@ -1501,7 +1797,7 @@ fn corpus_tie() -> Scn {
 /// odd files: 0 normal (ECU 1), 1 missing, 2 empty, 3 garbage only, 4 a message behind 530000 blanks (beyond the
 /// 512 KiB convert scans: the file counts as one without DLT message), 5 normal (ECU 2)
 fn corpus_odd() -> (Scn, Vec<Vec<usize>>) {
-    let mk = |ecu: u8, rt: u64, ts: u32, mcnt: u8| M { ecu, rt, ts, mcnt, ext: true, apid: 1, ctid: 2, boot: 0, fill: 0, creq: false, has_ts: true };
+    let mk = |ecu: u8, rt: u64, ts: u32, mcnt: u8| M { ecu, rt, ts, mcnt, ext: true, apid: 1, ctid: 2, boot: 0, fill: 0, creq: false, has_ts: true, lvl: 4 };
     let msgs = vec![mk(1, RHO, 0, 0), mk(1, RHO + 1_000_000, 10_000, 1), mk(3, RHO + 500_000, 0, 2), mk(2, RHO + 700_000, 0, 3), mk(2, RHO + 900_000, 2_000, 4)];
     let f = |v: Vec<u32>, pad: u32| FileSpec { garbage: vec![vec![]; v.len() + 1], msgs: v, missing: false, pad };
     let files = vec![
@@ -1533,6 +1829,7 @@ fn corpus_stream_files() -> (Scn, Vec<Vec<usize>>) {
         fill: 0,
         creq: false,
         has_ts: true,
+        lvl: 4,
     };
     let msgs = vec![mk(1, 5, 5, 0), mk(1, 12, 5, 1), mk(2, 8, 8, 2), mk(3, 3, 3, 3), mk(3, 12, 3, 4), mk(4, 11, 11, 5)];
     let f = |v: Vec<u32>| FileSpec { garbage: vec![vec![]; v.len() + 1], msgs: v, missing: false, pad: 0 };
@@ -1570,12 +1867,13 @@ fn gen_multi(rng: &mut Rng) -> (Scn, Vec<Vec<ArgSpec>>) {
                     ts: ((t - times[0]) * 10_000) as u32,
                     mcnt: k as u8,
                     ext,
-                    apid: if ext { rng.range(1, 3) as u8 } else { 0 },
-                    ctid: if ext { rng.range(1, 3) as u8 } else { 0 },
+                    apid: if ext { rng.range(1, NIDS) as u8 } else { 0 },
+                    ctid: if ext { rng.range(1, NIDS) as u8 } else { 0 },
                     boot: 0,
                     fill: 0,
                     creq: false,
                     has_ts: true,
+                    lvl: rng.range(1, 6) as u8,
                 });
             }
             per_ecu.push(uids);
@@ -1653,6 +1951,7 @@ fn corpus_filters() -> (Scn, Vec<Opts>) {
             fill: 0,
             creq: false,
             has_ts: true,
+            lvl: (k % 6) as u8 + 1,
         });
     }
     let f = |v: Vec<u32>| FileSpec { garbage: vec![vec![]; v.len() + 1], msgs: v, missing: false, pad: 0 };
@@ -1690,7 +1989,7 @@ fn corpus_filters() -> (Scn, Vec<Opts>) {
 /// times in a row
 fn corpus_out_path() -> (Scn, Vec<Opts>) {
     let msgs: Vec<M> = (0..10u32)
-        .map(|k| M { ecu: 1, rt: RHO + k as u64 * 50_000, ts: k * 500, mcnt: k as u8, ext: true, apid: (k % 3) as u8 + 1, ctid: 1, boot: 0, fill: if k == 7 { 300 } else { 0 }, creq: false, has_ts: true })
+        .map(|k| M { ecu: 1, rt: RHO + k as u64 * 50_000, ts: k * 500, mcnt: k as u8, ext: true, apid: (k % 3) as u8 + 1, ctid: 1, boot: 0, fill: if k == 7 { 300 } else { 0 }, creq: false, has_ts: true, lvl: 4 })
         .collect();
     let scn = Scn { files: vec![FileSpec { garbage: vec![vec![]; 11], msgs: (0..10).collect(), missing: false, pad: 0 }, FileSpec { msgs: vec![], garbage: vec![vec![]], missing: true, pad: 0 }], msgs };
     let win = |b: Option<u32>, e: Option<u32>, style: u8, pre: Pre| {
